@@ -1,8 +1,10 @@
 #!/bin/sh
-# re-run every seeded change against the check of the property it breaks (scratch copies)
+# re-run every seeded change against the check of the property it breaks (scratch copies
+# of /repo under /dev/shm via PVC_REPO_SRC; /repo itself is not touched)
 out=/verif/seeded/RESULTS.txt; : > $out
-for d in /verif/seeded/C*/; do
+for d in /verif/seeded/C*/ /verif/seeded/S*/; do
   id=$(basename $d)
-  echo "##### seed $id" >> $out
-  SEED_TIMEOUT=1200 /verif/tools/try_seed.sh $d $id 2>&1 | grep -v "^  obligation" | tail -4 >> $out
+  prop=$(/venv/bin/python -c "import json,sys; print(json.load(open('$d/meta.json'))['property'])")
+  echo "##### seed $id (property $prop)" >> $out
+  SEED_TIMEOUT=1500 /verif/tools/try_seed.sh $d $prop 2>&1 | grep -v "^  obligation" | tail -5 | cut -c1-400 >> $out
 done
